@@ -6,4 +6,5 @@ CONSTANTS
   LatePool <- mcLatePool
   FirstMatch = TRUE
   RT = FALSE
+  Reduce = FALSE
 CHECK_DEADLOCK FALSE
